@@ -40,11 +40,19 @@ def hierarchies(tier):
             continue
         if ctor == "handwritten" and (key or noinit):
             continue  # the documented hand-written shape has no key handling / init=False attributes
+        if shape == "multi" and ctor == "handwritten" and not (key or overflow or noinit or factory):
+            out.append({"shape": shape, "ctor": ctor, "key": key, "overflow": overflow, "noinit": noinit, "factory": factory, "shared": True})
         if shape == "multi" and (key or ctor == "handwritten"):
             continue
         if tier == "quick" and factory and (overflow or noinit or key):
             continue
         out.append({"shape": shape, "ctor": ctor, "key": key, "overflow": overflow, "noinit": noinit, "factory": factory})
+        if shape == "multi" and not (overflow or noinit or factory):
+            out.append({"shape": shape, "ctor": ctor, "key": key, "overflow": overflow, "noinit": noinit, "factory": factory, "shared": True})
+            out.append({"shape": shape, "ctor": ctor, "key": key, "overflow": overflow, "noinit": noinit, "factory": factory, "shared": "factory"})
+        if not key and shape in ("single", "spec_sub", "plain_sub", "spec_sub_plain", "spec_sub_sub") and not (overflow or noinit or factory):
+            # the owner declares `a` WITHOUT default (and it is not a key): defaults can then only come from subclasses
+            out.append({"shape": shape, "ctor": ctor, "key": key, "overflow": overflow, "noinit": noinit, "factory": factory, "a_nodefault": True})
         if shape in ("spec_sub", "spec_sub_plain", "spec_sub_sub"):
             # how the spec subclass treats the inherited attribute `b` (default above: re-declares it) and whether the
             # subclass changes the copy policy (both make the library rebuild the inherited attribute specification)
@@ -60,7 +68,7 @@ def classes_of(h):
     """declarative description: list of classes (bottom-up order of definition).
     each: name, bases, spec(bool), decl {attr: {"ann":bool, "default": int|None|("factory", int), "init": bool}}, ctor, key, overflow, post_init"""
     fac = h["factory"]
-    base_a_default = None if h["key"] == "nodefault" else 1
+    base_a_default = None if (h["key"] == "nodefault" or h.get("a_nodefault")) else 1
     base = {"name": "Base", "bases": [], "spec": True, "ctor": h["ctor"], "key": "a" if h["key"] else None,
             "overflow": "extra" if h["overflow"] else None, "post_init": True,
             "decl": {"a": {"ann": True, "default": base_a_default, "init": True},
@@ -72,6 +80,8 @@ def classes_of(h):
                     "decl": {"a": {"ann": False, "default": 0, "init": True},           # merely re-defaulted, to a FALSY value (Base stays the owner)
                              "b": {"ann": True, "default": 12, "init": True},           # re-declared: Sub takes ownership
                              "c": {"ann": True, "default": ("factory", 13) if fac else 13, "init": True}}})
+        if h.get("a_nodefault"):
+            del cls[-1]["decl"]["a"]  # the intermediate spec class leaves `a` alone: only a plain subclass may give it a default
         if h.get("sub_b") == "redefault":
             cls[-1]["decl"]["b"] = {"ann": False, "default": 12, "init": True}  # plain `b = 12`: Base stays the owner, flags are inherited
         elif h.get("sub_b") == "untouched":
@@ -79,6 +89,8 @@ def classes_of(h):
         cls[-1]["do_not_copy"] = bool(h.get("sub_dnc"))
     if sh == "plain_sub":
         cls.append({"name": "Plain", "bases": ["Base"], "spec": False, "decl": {"b": {"ann": False, "default": 22, "init": True}}})
+    if sh == "plain_sub":
+        cls[-1]["post_init_override"] = True
     if sh == "spec_sub_plain":
         cls.append({"name": "Plain", "bases": ["Sub"], "spec": False, "decl": {"c": {"ann": False, "default": 23, "init": True},
                                                                                "a": {"ann": False, "default": 21, "init": True}}})
@@ -100,6 +112,11 @@ def classes_of(h):
         base["decl"].pop("b")
         cls.append({"name": "Other", "bases": [], "spec": True, "ctor": "generated", "key": None, "overflow": None, "post_init": False,
                     "decl": {"b": {"ann": True, "default": ("factory", 2) if fac else 2, "init": not h["noinit"]}}})
+        if h.get("shared"):
+            # both parents declare `a`; the first base in the MRO (Base) wins
+            cls[-1]["decl"]["a"] = {"ann": True, "default": 5, "init": True}
+            if h["shared"] == "factory":
+                base["decl"]["a"] = {"ann": True, "default": ("factory", 1), "init": True}
         cls.append({"name": "Multi", "bases": ["Base", "Other"], "spec": True, "ctor": "generated", "key": None, "overflow": None, "post_init": False,
                     "decl": {"c": {"ann": True, "default": 13, "init": True}}})
     return cls
@@ -142,6 +159,11 @@ def source_of(h):
             body.append("    def __post_init__(self):")
             body.append("        note('post_init_calls')")
             body.append("        note('post_init_saw', sorted(k for k in vars(self) if not k.startswith('_')))")
+        if k.get("post_init_override"):
+            # a plain subclass overriding the hook: ITS __post_init__ is the instance's __post_init__
+            body.append("    def __post_init__(self):")
+            body.append("        note('override_calls')")
+            body.append("        super().__post_init__()")
         lines += body or ["    pass"]
         lines.append("")
     return "\n".join(lines)
@@ -255,15 +277,29 @@ def keyword_sets(h):
         out.append(dict({m: 60 for m in names if m != n}, **{n: "bad"}))
     out.append({"zzz": 1})
     out.append({"zzz": 1, "a": 70})
+    if h["overflow"]:
+        # the overflow attribute's own name is not an init keyword either: it is one more unknown keyword
+        out.append({"extra": 5})
+        out.append({"zzz": 1, "extra": 6})
     out.append({"c": 5} if "c" not in names else {"_private": 1})
     return out
 
 
-def run_one(h, final, kwargs, positional_key):
+def run_one(h, final, kwargs, positional_key, others_first=False):
     ns = {"__name__": "verif_c09"}
     exec(compile(PRELUDE, "<c09-prelude>", "exec", dont_inherit=True), ns)
     exec(compile(source_of(h), "<c09-hierarchy>", "exec", dont_inherit=True), ns)
     cls = ns[final]
+    if others_first:
+        # every OTHER class of the hierarchy is bootstrapped and used first (most-derived first): what a subclass or
+        # a sibling does to the attribute specifications it inherits must not leak into this class
+        for k in reversed(classes_of(h)):
+            if k["name"] != final:
+                try:
+                    ns[k["name"]].__spec_class__
+                    ns[k["name"]](**({"a": 3} if k.get("key") or h.get("a_nodefault") else {}))
+                except Exception:
+                    pass
     ns["LOG"].clear()
     try:
         inst = cls(positional_key, **kwargs) if positional_key is not None else cls(**kwargs)
@@ -279,12 +315,13 @@ def fam(e):
     return type(e).__name__
 
 
-def judge(h, final, kwargs, positional_key):
+def judge(h, final, kwargs, positional_key, others_first=False):
     exp = refinit(h, final, kwargs, positional_key)
-    got, ns = run_one(h, final, kwargs, positional_key)
-    case = {"h": h, "final": final, "kwargs": kwargs, "positional_key": positional_key}
+    got, ns = run_one(h, final, kwargs, positional_key, others_first)
+    case = {"h": h, "final": final, "kwargs": kwargs, "positional_key": positional_key, "others_first": others_first}
     sig = dict(shape=h["shape"], ctor=h["ctor"], key=h["key"], overflow=h["overflow"], noinit=h["noinit"], factory=h["factory"], final=final,
-               sub_b=h.get("sub_b", "redeclare"), sub_dnc=bool(h.get("sub_dnc")),
+               sub_b=h.get("sub_b", "redeclare"), sub_dnc=bool(h.get("sub_dnc")), others_first=others_first,
+               shared=bool(h.get("shared")), a_nodefault=bool(h.get("a_nodefault")),
                kw=("bad" if any(v == "bad" for v in kwargs.values()) else "unknown" if any(k not in ATTRS for k in kwargs) else "conf"),
                positional=positional_key is not None)
     out = []
@@ -318,6 +355,9 @@ def judge(h, final, kwargs, positional_key):
     elif [k for k in log.get("post_init_saw", []) if k in ATTRS or k == "extra"] != saw:
         out.append(violation(PROP, dict(sig, kind="post_init_before_attributes_set"),
                              {"saw": log.get("post_init_saw"), "expected": saw}, case))
+    want_override = 1 if any(k.get("post_init_override") and k["name"] in mro(classes_of(h), final) for k in classes_of(h)) else 0
+    if log.get("override_calls", 0) != want_override:
+        out.append(violation(PROP, dict(sig, kind="post_init_override_calls", got=log.get("override_calls", 0), expected=want_override), {}, case))
     if log.get("hand_calls", 0) != hand_calls:
         out.append(violation(PROP, dict(sig, kind="handwritten_ctor_calls", got=log.get("hand_calls", 0), expected=hand_calls), {}, case))
     return out
@@ -342,21 +382,23 @@ def work(chunk):
                 variants = [(kw, None)]
                 if h["key"]:
                     variants.append(({k: v for k, v in kw.items() if k != "a"}, kw.get("a", 77)))
-                for kwargs, pos in variants:
-                    out = judge(h, final, kwargs, pos)
+                for kwargs, pos, of in [(k, p, o) for k, p in variants for o in (False, True)]:
+                    if of and len(classes_of(h)) == 1:
+                        continue
+                    out = judge(h, final, kwargs, pos, of)
                     C.inc("transitions")
                     C.inc("evaluations")
                     for v in out:
                         C.viol(v)
                     if not out:
                         C.inc("traces_validated_against_impl")
-                        C.nontrivial((repr(h), final, repr(kwargs), pos))
+                        C.nontrivial((repr(h), final, repr(kwargs), pos, of))
     C.sample({"hierarchy": chunk[0], "source": source_of(chunk[0])[:500]})
     return C.rec
 
 
 def run_case(case):
-    return judge(case["h"], case["final"], case["kwargs"], case["positional_key"])
+    return judge(case["h"], case["final"], case["kwargs"], case["positional_key"], case.get("others_first", False))
 
 
 def main(run):
